@@ -23,8 +23,8 @@ from elementpath.exceptions import xpath_error, ElementPathError, ElementPathVal
 from elementpath.namespaces import XSD_ANY_TYPE, XSD_ANY_SIMPLE_TYPE, XSD_ANY_ATOMIC_TYPE
 from elementpath.namespaces import XSD_NAMESPACE, XPATH_MATH_FUNCTIONS_NAMESPACE
 from elementpath.datatypes import AnyAtomicType, AbstractDateTime, AnyURI, \
-    DayTimeDuration, Date, DateTime, DecimalProxy, Duration, Integer, QName, \
-    Timezone, UntypedAtomic, AbstractQName
+    DayTimeDuration, Date, DateTime, DateTime10, DecimalProxy, Duration, Integer, \
+    QName, Timezone, UntypedAtomic, AbstractQName
 from elementpath.tdop import Token, MultiLabel
 from elementpath.helpers import ordinal, get_double
 from elementpath.xpath_context import XPathContext, XPathSchemaContext
@@ -745,9 +745,12 @@ class XPathToken(Token[ta.XPathTokenType]):
                     _item += timezone.offset
                 elif not isinstance(item, Date):
                     _item += timezone.offset - _tzinfo.offset
-                elif timezone.offset < _tzinfo.offset:
-                    _item -= timezone.offset - _tzinfo.offset
-                    _item -= DayTimeDuration.fromstring('P1D')
+                else:
+                    # the date of the starting instant (00:00:00) adjusted as xs:dateTime
+                    dt_cls = DateTime if cls._xsd_version != '1.0' else DateTime10
+                    dt_item = dt_cls(item.year, item.month, item.day, tzinfo=_tzinfo)
+                    dt_item += timezone.offset
+                    _item = cls(dt_item.year, dt_item.month, dt_item.day)
         except OverflowError as err:
             if isinstance(context, XPathSchemaContext):
                 return _item
